@@ -1,8 +1,5 @@
-\* quick: laws + export of every case (run with -workers 1; Part/Parts are overridden by the driver)
-CONSTANTS
-  Tier = "quick"
-  Part = 0
-  Parts = 8
+\* quick tier: laws + export of every case of this partition (-workers 1; VERIF_PART / VERIF_PARTS in the environment)
+CONSTANTS Tier = "quick"
 INIT Init
 NEXT Next
 INVARIANTS CheckAndExport
